@@ -7,7 +7,7 @@ from TLC -simulate (deeper) and from the targeted generators below (timing aroun
 TestReqID contents, resend ranges); (3) harness/sess replays every scenario on the real code inside
 a synctest bubble and records a trace; (4) TLC validates the trace against SessionTrace; the verdict
 of property X is taken from the REJECT lines tagged X (R2)."""
-import json, os, random, subprocess, concurrent.futures
+import zlib, json, os, random, subprocess, concurrent.futures
 from vlib import *
 
 PROPS = ["C06", "C07", "C08", "C09", "C10", "C14", "C15", "C16"]
@@ -369,6 +369,10 @@ def run_driver(run, binp, scns, name, testname="TestScenarios", extra_env=None):
     scn_path = os.path.join(run.dir, name + ".scn.ndjson")
     with open(scn_path, "w") as f:
         for sc in scns:
+            # a numeric field that cannot be parsed: half of the time "present without a value" instead of letters
+            for i, a in enumerate(sc["steps"] if isinstance(sc.get("steps"), list) else []):
+                if isinstance(a, dict) and "a" in a and "empty" not in a:
+                    a["empty"] = (a.get("sq") == "nonnum" or a.get("integ") == "nonnum") and zlib.crc32(("%s#%d" % (sc.get("id"), i)).encode()) % 2 == 0
             f.write(json.dumps(sc) + "\n")
     shards = min(NCPU, max(1, len(scns) // 20))
     procs = []
